@@ -253,8 +253,17 @@ func (e *c19Env) execHealthz(tc *c19Case) (oracle, note string) {
 	if tc.Status >= 0 {
 		hs.SetServingStatus(tc.HealthSvc, healthpb.HealthCheckResponse_ServingStatus(tc.Status))
 	}
+	// AddHealthz was called before on ANOTHER config, whose owner then edited the rules in its own
+	// message (and which already carried rules of its own): a fresh config is not affected
+	other := &serviceconfig.Service{Http: &annotations.Http{Rules: []*annotations.HttpRule{{Selector: "x.Y.Z", Pattern: &annotations.HttpRule_Get{Get: "/x"}}}}}
+	health.AddHealthz(other)
+	for _, rl := range other.Http.Rules {
+		rl.Pattern = &annotations.HttpRule_Get{Get: "/edited/by/the/other/owner"}
+		rl.AdditionalBindings = append(rl.AdditionalBindings, &annotations.HttpRule{Pattern: &annotations.HttpRule_Get{Get: "/livez"}})
+	}
 	sc := &serviceconfig.Service{}
 	health.AddHealthz(sc)
+	health.AddHealthz(sc) // twice on the same config: harmless
 	m, err := larking.NewMux(larking.ServiceConfigOption(sc))
 	if err != nil {
 		return "harness", err.Error()
